@@ -184,48 +184,45 @@ Proof.
 Qed.
 
 (* ---- casts between integer types ------------------------------------------------------- *)
-Definition cast_bits (s1 s2 : bool) (w1 w2 a : Z) : Z :=
+Definition cast_bits (fx s1 s2 : bool) (w1 w2 a : Z) : Z :=
   match w1 ?= w2 with
-  | Lt => if s1 && s2 then sextend w1 w2 a else a
+  | Lt => if (if fx then s1 else s1 && s2) then sextend w1 w2 a else a
   | Eq => a
   | Gt => wrap w2 a
   end.
 
-Lemma cast_num_int_exec F c1 c2 s1 s2 a :
+Lemma cast_num_int_exec F fx c1 c2 s1 s2 a :
   cl_is_int c1 = true -> cl_is_int c2 = true ->
-  (do is <- cast_num (mk_numty c1 false s1) (mk_numty c2 false s2); exec_list F is (c1, a))
-  = Ok (c2, cast_bits s1 s2 (clbits c1) (clbits c2) a).
+  (do is <- cast_num fx (mk_numty c1 false s1) (mk_numty c2 false s2); exec_list F is (c1, a))
+  = Ok (c2, cast_bits fx s1 s2 (clbits c1) (clbits c2) a).
 Proof.
   intros H1 H2. unfold cast_num, bit_width, cast_bits. cbn [nt_cl nt_float nt_signed Bool.eqb].
   destruct (Z.eqb_spec (clbits c1) (clbits c2)) as [E|NE]; cbn [andb].
   - rewrite E, Z.compare_refl. cbn. f_equal. f_equal. apply clbits_inj; assumption.
   - destruct (Z.compare_spec (clbits c1) (clbits c2)) as [E|L|G]; [lia| |].
-    + destruct (s1 && s2); cbn [bind exec_list exec_u]; rewrite H1, H2;
+    + destruct (if fx then s1 else s1 && s2); cbn [bind exec_list exec_u]; rewrite H1, H2;
         (destruct (Z.ltb_spec (clbits c1) (clbits c2)); [|lia]); reflexivity.
     + cbn [bind exec_list exec_u]. rewrite H1, H2.
       destruct (Z.ltb_spec (clbits c2) (clbits c1)); [|lia]. reflexivity.
 Qed.
 
 (* what the selected cast instructions compute, against the specification *)
-Lemma cast_bits_spec s1 s2 w1 w2 a : 0 < w1 -> 0 < w2 -> in_bits w1 a ->
-  (s1 = true -> s2 = false -> w1 < w2 -> False) ->
-  cast_bits s1 s2 w1 w2 a = encode w2 (decode s1 w1 a).
+Lemma cast_bits_spec fx s1 s2 w1 w2 a : 0 < w1 -> 0 < w2 -> in_bits w1 a ->
+  (fx = false -> s1 = true -> s2 = false -> w1 < w2 -> False) ->
+  cast_bits fx s1 s2 w1 w2 a = encode w2 (decode s1 w1 a).
 Proof.
   intros H1 H2 Ha NK. unfold cast_bits, encode.
   destruct (Z.compare_spec w1 w2) as [E|L|G].
   - subst. rewrite wrap_decode by lia. symmetry. apply wrap_small; assumption.
-  - destruct s1, s2; cbn [andb decode].
-    + reflexivity.
-    + exfalso; auto.
-    + symmetry. apply wrap_small. unfold in_bits in *. pose proof (pow2_le_mono w1 w2 ltac:(lia)). lia.
-    + symmetry. apply wrap_small. unfold in_bits in *. pose proof (pow2_le_mono w1 w2 ltac:(lia)). lia.
+  - destruct fx, s1, s2; cbn [andb decode]; try reflexivity; try (exfalso; auto; fail);
+      symmetry; apply wrap_small; unfold in_bits in *; pose proof (pow2_le_mono w1 w2 ltac:(lia)); lia.
   - rewrite <- (wrap_wrap_le w2 w1 (decode s1 w1 a)) by lia. rewrite wrap_decode by lia.
     rewrite wrap_wrap_le by lia. reflexivity.
 Qed.
 
 (* in the known class the selected instruction is uextend: right iff the value is non-negative *)
 Lemma cast_bits_known w1 w2 a : 0 < w1 -> w1 < w2 -> in_bits w1 a ->
-  cast_bits true false w1 w2 a = a /\
+  cast_bits false true false w1 w2 a = a /\
   (a = encode w2 (decode true w1 a) <-> 0 <= signed w1 a).
 Proof.
   intros H1 L Ha. unfold cast_bits. destruct (Z.compare_spec w1 w2); try lia. cbn [andb]. split; [reflexivity|].
@@ -246,22 +243,22 @@ Lemma cast_value_int F from to a s1 w1 s2 w2 :
   ty_sem from = Some (s1, w1) -> ty_sem to = Some (s2, w2) ->
   exists c2, clbits c2 = w2 /\ cl_is_int c2 = true /\
     number_type to = Ok (mk_numty c2 false s2) /\
-    cast_value F from to a = Ok (c2, cast_bits s1 s2 w1 w2 a).
+    cast_value F from to a = Ok (c2, cast_bits (v_cast_by_source F) s1 s2 w1 w2 a).
 Proof.
   intros Hf Ht.
   destruct (ty_sem_number_type _ _ _ Hf) as (c1 & N1 & W1 & I1).
   destruct (ty_sem_number_type _ _ _ Ht) as (c2 & N2 & W2 & I2).
   exists c2. repeat split; try assumption.
   unfold cast_value. rewrite N1, N2. cbn [bind nt_cl].
-  pose proof (cast_num_int_exec F c1 c2 s1 s2 a I1 I2) as H. cbn [nt_cl] in H.
+  pose proof (cast_num_int_exec F (v_cast_by_source F) c1 c2 s1 s2 a I1 I2) as H. cbn [nt_cl] in H.
   rewrite W1, W2 in H. exact H.
 Qed.
 
-Lemma cast_bits_in_bits s1 s2 w1 w2 a : 0 < w1 -> 0 < w2 -> in_bits w1 a -> in_bits w2 (cast_bits s1 s2 w1 w2 a).
+Lemma cast_bits_in_bits fx s1 s2 w1 w2 a : 0 < w1 -> 0 < w2 -> in_bits w1 a -> in_bits w2 (cast_bits fx s1 s2 w1 w2 a).
 Proof.
   intros H1 H2 Ha. unfold cast_bits. destruct (Z.compare_spec w1 w2).
   - subst; assumption.
-  - destruct (s1 && s2).
+  - destruct (if fx then s1 else s1 && s2).
     + unfold sextend. apply wrap_range. lia.
     + unfold in_bits in *. pose proof (pow2_le_mono w1 w2 ltac:(lia)). lia.
   - apply wrap_range. lia.
@@ -288,31 +285,49 @@ Proof.
   unfold model_cast. rewrite E. cbn [val_bits]. rewrite W2. f_equal. f_equal.
   pose proof (ty_sem_width_pos _ _ _ Hf). pose proof (ty_sem_width_pos _ _ _ Ht).
   apply cast_bits_spec; try lia; try assumption.
-  intros -> -> L. unfold known_cast_class in NK. rewrite Hf, Ht in NK.
+  intros _ -> -> L. unfold known_cast_class in NK. rewrite Hf, Ht in NK.
   destruct (Z.ltb_spec w1 w2); [discriminate | lia].
+Qed.
+
+(* the repaired cast_num (finding C08-1 fixed): the FULL statement, no class excluded *)
+Theorem cast_int_full_fixed F from to a s1 w1 :
+  v_cast_by_source F = true ->
+  ty_sem from = Some (s1, w1) -> in_bits w1 a ->
+  forall r, spec_cast from to a = Some r -> val_bits (model_cast F from to a) = Some r.
+Proof.
+  intros FX Hf Ha r. unfold spec_cast. rewrite Hf.
+  destruct (ty_sem to) as [[s2 w2]|] eqn:Ht; [|discriminate]. intros [= <-].
+  destruct (cast_value_int F from to a _ _ _ _ Hf Ht) as (c2 & W2 & I2 & _ & E).
+  unfold model_cast. rewrite E. cbn [val_bits]. rewrite W2. f_equal. f_equal.
+  pose proof (ty_sem_width_pos _ _ _ Hf). pose proof (ty_sem_width_pos _ _ _ Ht).
+  apply cast_bits_spec; try lia; try assumption. rewrite FX. discriminate.
 Qed.
 
 (* inside the known class the model (and the code) zero-extends: wrong exactly for negative values *)
 Theorem cast_int_known_class_exact F from to a s1 w1 :
+  v_cast_by_source F = false ->
   ty_sem from = Some (s1, w1) -> in_bits w1 a ->
   known_cast_class from to = Some 1%N ->
   forall r, spec_cast from to a = Some r ->
   exists w2, val_bits (model_cast F from to a) = Some (w2, a) /\
              (Some (w2, a) = Some r <-> 0 <= decode s1 w1 a).
 Proof.
-  intros Hf Ha K r. unfold spec_cast. unfold known_cast_class in K. rewrite Hf in *.
+  intros FX Hf Ha K r. unfold spec_cast. unfold known_cast_class in K. rewrite Hf in *.
   destruct (ty_sem to) as [[s2 w2]|] eqn:Ht; [|discriminate].
   destruct s1; [|discriminate]. destruct s2; [discriminate|].
   destruct (Z.ltb_spec w1 w2); [|discriminate]. intros [= <-].
   destruct (cast_value_int F from to a _ _ _ _ Hf Ht) as (c2 & W2 & I2 & _ & E).
   pose proof (ty_sem_width_pos _ _ _ Hf).
   destruct (cast_bits_known w1 w2 a ltac:(lia) ltac:(lia) Ha) as [E1 E2].
-  exists w2. unfold model_cast. rewrite E, E1. cbn [val_bits]. rewrite W2. split; [reflexivity|].
+  exists w2. unfold model_cast. rewrite E, FX, E1. cbn [val_bits]. rewrite W2. split; [reflexivity|].
   cbn [decode]. rewrite <- E2. split; [intros [= Q]; exact Q | intros Q; f_equal; f_equal; exact Q].
 Qed.
 
+(* HISTORY (finding C08-1, before the repair): the full statement about the code variant
+   [v_cast_by_source F = false] is false *)
 Definition cast_int_full : Prop :=
-  forall (F : fsem) from to a s1 w1, ty_sem from = Some (s1, w1) -> in_bits w1 a ->
+  forall (F : fsem) from to a s1 w1, v_cast_by_source F = false ->
+  ty_sem from = Some (s1, w1) -> in_bits w1 a ->
   forall r, spec_cast from to a = Some r -> val_bits (model_cast F from to a) = Some r.
 
 (* u16.(i8 -1): the model (like the compiler) yields 0x00ff, the statement demands 0xffff *)
@@ -320,8 +335,8 @@ Lemma cast_int_full_refuted : ~ cast_int_full.
 Proof.
   intros H.
   set (F := mk_fsem (fun _ _ z => z) (fun _ _ z => z) (fun _ _ z => z) (fun _ _ z => z)
-                    (fun z => z) (fun z => z) (fun _ z => z) (fun _ _ z _ => z) (fun _ _ _ _ => false)).
-  specialize (H F (TIInt 8) (TUInt 16) 255 true 8 eq_refl ltac:(unfold in_bits; lia) (16, 65535) eq_refl).
+                    (fun z => z) (fun z => z) (fun _ z => z) (fun _ _ z _ => z) (fun _ _ _ _ => false) false).
+  specialize (H F (TIInt 8) (TUInt 16) 255 true 8 eq_refl eq_refl ltac:(unfold in_bits; lia) (16, 65535) eq_refl).
   vm_compute in H. discriminate.
 Qed.
 
@@ -393,7 +408,7 @@ Lemma binop_full_refuted : ~ binop_full.
 Proof.
   intros H.
   set (F := mk_fsem (fun _ _ z => z) (fun _ _ z => z) (fun _ _ z => z) (fun _ _ z => z)
-                    (fun z => z) (fun z => z) (fun _ z => z) (fun _ _ z _ => z) (fun _ _ _ _ => false)).
+                    (fun z => z) (fun z => z) (fun _ z => z) (fun _ _ z _ => z) (fun _ _ _ _ => false) false).
   specialize (H F (TIInt 128) OpDiv 7 2 true 128 eq_refl ltac:(unfold in_bits; lia) ltac:(unfold in_bits; lia)
                 ltac:(intros [X|X]; discriminate X) (128, 3) eq_refl).
   vm_compute in H. discriminate.
@@ -436,11 +451,11 @@ Proof.
   assert (c' = c) by congruence. subst c'.
   unfold spec_cast in Sa, Sb. rewrite Hl, Tm in Sa. rewrite Hr, Tm in Sb.
   injection Sa as <-. injection Sb as <-. cbn [snd] in Sp.
-  assert (Ca : cast_bits sl sm wl wm a = encode wm (decode sl wl a)).
-  { apply cast_bits_spec; try lia; try assumption. intros -> -> L.
+  assert (Ca : cast_bits (v_cast_by_source F) sl sm wl wm a = encode wm (decode sl wl a)).
+  { apply cast_bits_spec; try lia; try assumption. intros _ -> -> L.
     unfold known_cast_class in K1. rewrite Hl, Tm in K1. destruct (Z.ltb_spec wl wm); [discriminate|lia]. }
-  assert (Cb : cast_bits sr sm wr wm b = encode wm (decode sr wr b)).
-  { apply cast_bits_spec; try lia; try assumption. intros -> -> L.
+  assert (Cb : cast_bits (v_cast_by_source F) sr sm wr wm b = encode wm (decode sr wr b)).
+  { apply cast_bits_spec; try lia; try assumption. intros _ -> -> L.
     unfold known_cast_class in K2. rewrite Hr, Tm in K2. destruct (Z.ltb_spec wr wm); [discriminate|lia]. }
   assert (model_binary F l r op a b =
           (do i <- select_binop (mk_numty c false sm) op;
